@@ -109,5 +109,16 @@ PROPS["C15"] = {
     "assumptions": ["boundaries, a1, d1 in [0, 24 h]; a1 != a2; |slope| <= 2"],
 }
 
+
+PROPS["C01"] = {
+    "level_text": "Lean model of ReadFromSRT/parseTextSrt/WriteToSRT (loop state, running style, index heuristics, blank-line stripping, writer) over a partial model of the x/net/html tokenizer, plus an independent SubRip decoder (Spec.SRT.decode). Machine-checked for all inputs: unescape(escape t) = t and no '<' in written text (so &, <, NBSP survive), the written timing line reads back to the truncated instants with ',' and with '.', blank-line padding (between cues and at EOF) leaves exactly the text lines, consecutive numbering, empty list refused. The whole-document clauses (read of every rendering = denoted cues; write -> own reader and -> independent decoder = same cues) are decided on every run by the srt.read / srt.write streams: model vs implementation on generated ground truths x rendering choices (EOL kinds, BOM, index present/absent/garbage, blank padding, separators, 1-3 digits, spacing, coordinates, open / multi-line tags), mutated documents and the repository's test data, with the independent decoder evaluated on every case.",
+    "level_note": "Partial: the document-level round-trip statements are not proved in Lean (they are checked by correspondence + independent decoder on every generated case); the x/net/html tokenizer is a partial hand-written model validated by lib.html (inputs outside its class are counted as unmodelled and not compared). Pinned defects D4 (panic on truncated timing line) and D5 (blank lines at EOF kept as empty lines) repaired by fix: commits.",
+    "technique": "Lean 4 proof of the component laws (replacer induction, digit-string lemmas, list lemmas) + differential correspondence with an independent Lean decoder as oracle",
+    "props": ["Astisub.Props.C01"],
+    "streams": [{"name": "srt.read"}, {"name": "srt.write"}, {"name": "lib.html"}],
+    "trust": ["model: SRT.read/SRT.write hand-written from srt.go; Go.tokenize partial model of golang.org/x/net/html; UTF-8 transport by Lean's String.fromUTF8?/toUTF8"],
+    "assumptions": ["times in [0, 100 h); text without line terminators or '-->'"],
+}
+
 NOT_APPLICABLE = {p: "not built yet in this session (work in progress; see DESIGN.md section 11 for the build order)" for p in
-                  ["C01","C02","C03","C04","C05","C06","C07","C08","C19","C20"]}
+                  ["C02","C03","C04","C05","C06","C07","C08","C19","C20"]}
